@@ -337,7 +337,8 @@ def check_call_sites(ctx: Ctx, aspects) -> None:
     """aspects: accept (before/after order and cancel), before_order (only that hook),
     execution (after-execution hook), session, step, callers"""
     f = ctx.func(HO)
-    for b in handling_blocks(ctx):
+    blocks = list(handling_blocks(ctx))
+    for b in blocks:
         evs = b.path.events
         i = evs.index(b.accept)
         bname = "_trigger_event_before_order" if b.kind == "order" else "_trigger_event_before_cancel"
@@ -359,6 +360,13 @@ def check_call_sites(ctx: Ctx, aspects) -> None:
             continue
         if "accept" in aspects:
             ok = len(trig) == 2 and len(bef) == 1 and len(aft) == 1 and evs.index(bef[0]) < i < evs.index(aft[0])
+            if not ok and len(trig) < 2 and len(bef) <= 1 and len(aft) <= 1:
+                # a trigger absent from this way through the handling but present on another one: it is called under a condition
+                missing = [n_ for n_, got_ in ((bname, bef), (aname, aft)) if not got_]
+                elsewhere = [m_ for m_ in missing if any(b2.phase == b.phase and b2.kind == b.kind and any(e.kind == "call" and e.name == m_ for e in b2.path.events) for b2 in blocks)]
+                if missing and elsewhere == missing:
+                    ctx.unrec(f, b.accept.node, f"{b.phase} {b.kind}: before-hook, acceptance, after-hook", f"{', '.join(missing)} is called under a condition ({b.path.describe()[:120]}): whether a hook that is due is ever skipped by it is not decided")
+                    continue
             ctx.check(ok, f, b.accept.node, f"{b.phase} {b.kind}: before-hook, acceptance, after-hook", f"{bname}({barg}=<it>) < accept < {aname}({aarg}=<record>)",
                       " < ".join((e.name if e.kind == "call" else "?") for e in evs if e in trig or e is b.accept))
         elif "before_order" in aspects and b.kind == "order":
@@ -519,6 +527,11 @@ def r4(ctx: Ctx) -> None:
             inner_ok = all(k == ("sym", f"{l.target[0]}∈{l.loopid}") for l in lp for bp in l.paths for k in bucket_keys(bp))
             ctx.check(len(lp) == 1 and not top and inner_ok, f, f.node, "a hook with a time list is entered under exactly the listed times", "for t in event_hook.time: events_dict[name][t]", f"{len(lp)} loop(s) over the list, keys outside the loop={[short(k) for k in top]}")
     g = ctx.func("EventHook.__init__")
+    known_params = {"self", "event", "hook_type", "is_before", "time", "specific_class", "specific_instance"}
+    more = [x for x in g.params if x not in known_params]
+    if more:
+        ctx.unrec(g, g.node, "EventHook validation", f"the constructor takes parameter(s) the rule has no specification for ({', '.join(more)}): which combinations are valid, and when such a hook is due, is not decided")
+        return
     cases = []
     for p in ctx.paths(g.qualname):
         conds = [(strip_ver(c), pol) for c, pol, _ in p.conds]
@@ -545,7 +558,7 @@ def r4(ctx: Ctx) -> None:
     for p in normal_paths(ctx.paths(g.qualname)):
         got = {e.attr: key(e.value) for e in stores(p) if key(strip_ver(e.base)) == "self"}
         want = {"event": "event", "hook_type": "hook_type", "is_before": "is_before", "time": "time", "specific_class": "specific_class", "specific_instance": "specific_instance"}
-        ctx.check(got == want, g, g.node, "EventHook stores its arguments under their own names", str(want), str(got))
+        ctx.check({k: v for k, v in got.items() if k in want} == want, g, g.node, "EventHook stores its arguments under their own names", str(want), str(got))
 
 
 @rule("C13.R5", "every hook an event declares is registered once, for the event that declared it", "T4 + closure capture check", floor=3)
